@@ -820,40 +820,10 @@ func runC20(w *World, r *Report) {
 		for _, f := range []string{"addInputs", "workflowBranches", "staticValues"} {
 			r.Check(reset[f], "C20.workflow-compile-once", "Workflow.compile resets "+f+" after applying it", wfc.Pos(), "the container is cleared in compile", "the deferred "+f+" are applied again by every Compile: a second Compile of the unchanged workflow fails ('two terminal field paths conflict') or doubles branches / handlers — repeated compilation does not give the same outcome")
 		}
-		// (b') … and only AFTER they were applied: a reset placed in front of the loop that applies the elements forgets, on
-		// an error return from that loop, the declarations not reached yet — the next Compile of the unchanged workflow then
-		// succeeds without them
-		for _, fw := range fieldWrites(wfc) {
-			if fw.kind != "store" || !isNilConst(fw.val) {
-				continue
-			}
-			name := fw.field.Name()
-			if name != "addInputs" && name != "workflowBranches" && name != "staticValues" {
-				continue
-			}
-			isEarly := false
-			early := token.NoPos
-			instrs(wfc, func(in ssa.Instruction) {
-				rg, ok := in.(*ssa.Range)
-				var x ssa.Value
-				if ok {
-					x = rg.X
-				} else if c, isCall := in.(*ssa.Call); isCall && isBuiltin(c, "len") {
-					// index loops: `for i := 0; i < len(x); i++` / `for _, e := range slice` is lowered to len + index
-					x = c.Call.Args[0]
-				} else {
-					return
-				}
-				if f, _ := loadedField(x); f != nil && sameField(f, fw.field) && instrDominates(fw.in, in) && in.Block() != fw.in.Block() {
-					isEarly, early = true, in.Pos()
-				}
-				// a local copy taken before the reset and iterated after it
-				if u, ok := x.(*ssa.UnOp); ok && isLoadOfField(u, fw.field) && instrDominates(u, fw.in) && instrDominates(fw.in, in) {
-					isEarly, early = true, in.Pos()
-				}
-			})
-			r.Check(!isEarly, "C20.workflow-compile-once", "Workflow.compile resets "+name+" only after its elements were applied", fw.in.Pos(), "the reset does not precede the loop over the container", "the container is cleared before the loop that applies its elements ("+w.pos(early)+"): when that loop returns an error (two sources mapped to the same field, the whole input mapped twice — errors that are not sticky in the inner graph) the declarations not reached yet are gone, and the next Compile of the unchanged workflow succeeds, silently dropping the conflicting inputs")
-		}
+		// (b') used to demand that the reset FOLLOWS the loop that applies the elements: a reset in front of it forgot, on an
+		// error return from that loop, the declarations not reached yet, and the next Compile succeeded without them. Since
+		// fix 3f13e47 every such error is sticky (C20.workflow-error-sticks decides that), so no later Compile gets past it
+		// and where the reset stands is immaterial; the clause was retired (seed C20-k: seeded/_superseded).
 		// (b'') the replay order is fixed: the inner graph infers pass-through types from the first edge it is shown and
 		// keeps the first error, so replaying deferred declarations while ranging over a Go map makes the outcome of Compile
 		// depend on the iteration order. No range-over-map loop in Workflow.compile calls a deferred declaration (a func
